@@ -278,6 +278,8 @@ pub struct MapCfg {
     /// C13: an insertion must not grow the allocation while the table is at most half full
     /// (slots freed by removals must be reclaimed in place instead of driving growth)
     pub no_growth_when_half_empty: bool,
+    /// every system starts with `reserve(n)` on the fresh map (scripted layouts in a table of a given size)
+    pub initial_capacity: Option<usize>,
 }
 impl MapCfg {
     pub fn new(plan: Plan, universe: u8) -> Self {
@@ -294,6 +296,7 @@ impl MapCfg {
             alt_hasher: false,
             ops_universe: None,
             no_growth_when_half_empty: false,
+            initial_capacity: None,
         }
     }
     /// class of each key id: index of its hash among the plan's distinct hashes
@@ -364,7 +367,11 @@ impl Baseline {
 
 impl<K: KeyT, V: ValT> MapSut<K, V> {
     pub fn new(cfg: &MapCfg) -> Self {
-        Self::with_map(cfg, Map::<K, V>::with_hasher_in(PlanBuild { alt: cfg.alt_hasher }, CheckAlloc))
+        let mut s = Self::with_map(cfg, Map::<K, V>::with_hasher_in(PlanBuild { alt: cfg.alt_hasher }, CheckAlloc));
+        if let Some(c) = cfg.initial_capacity {
+            s.map.reserve(c);
+        }
+        s
     }
     pub fn with_map(cfg: &MapCfg, map: Map<K, V>) -> Self {
         let base = Baseline::take();
